@@ -1,4 +1,5 @@
 import Lemmas.Filter.Name
+import Lemmas.Filter.Table
 /-!
 # C20 — objects excluded by autogenerate filters never appear in the output
 
@@ -145,5 +146,101 @@ theorem conservative (P : Cmp) (objF : ObjDesc → Bool) (nameF : NameDesc → B
         (objAccepts objF (visible (fun _ => true) schemas conn) md) := by
   rw [conservative_name P objF nameF schemas conn md hs ht]
   exact conservative_object P objF (fun _ => true) schemas conn md
+
+/-! ## per-table conservativeness of the name filter -/
+
+theorem visible_cons (f : NameDesc → Bool) (schemas : List (Option String)) (t : Tbl) (r : List Tbl) :
+    visible f schemas (t :: r) =
+      if tableVisible f schemas t then visibleTbl f t :: visible f schemas r else visible f schemas r := by
+  simp only [visible, List.filter_cons]
+  split <;> simp
+
+theorem findTbl_cons (x : Tbl) (l : List Tbl) (k : Key) :
+    findTbl (x :: l) k = if x.key == k then some x else findTbl l k := by
+  simp only [findTbl, List.find?_cons]
+  split <;> simp_all
+
+theorem untouched_cons (nameF : NameDesc → Bool) (x : Tbl) (l : List Tbl) (k : Key) :
+    untouched nameF (x :: l) k = (untouched nameF [x] k && untouched nameF l k) := by
+  simp [untouched]
+
+theorem visibleTbl_true (t : Tbl) : visibleTbl (fun _ => true) t = t := by
+  cases t
+  simp [visibleTbl, filter_true']
+
+/-- on a table the name filter does not touch, the name-filtered reflected side and the unfiltered
+one hold the same table -/
+theorem findTbl_visible_agree (nameF : NameDesc → Bool) (schemas : List (Option String))
+    (conn : List Tbl) (k : Key)
+    (h : untouched nameF (visible (fun _ => true) schemas conn) k = true) :
+    findTbl (visible nameF schemas conn) k = findTbl (visible (fun _ => true) schemas conn) k := by
+  induction conn with
+  | nil => simp [visible]
+  | cons t r ih =>
+    rw [visible_cons] at h
+    rw [visible_cons nameF, visible_cons (fun _ => true)]
+    have hsch : tableVisible (fun _ => true) schemas t = schemas.contains t.schema := by
+      simp [tableVisible, visibleSchemas, filter_true']
+    by_cases hv : tableVisible (fun _ => true) schemas t = true
+    · simp only [hv, if_true] at h ⊢
+      rw [untouched_cons, Bool.and_eq_true] at h
+      rw [visibleTbl_true] at h ⊢
+      by_cases hk : t.key = k
+      · -- the table itself: accepted in every respect
+        have hu := h.1
+        have hid := visibleTbl_id nameF t (by rw [hk]; exact hu)
+        simp [untouched, hk] at hu
+        have hvn : tableVisible nameF schemas t = true := by
+          rw [hsch] at hv
+          simp only [tableVisible, visibleSchemas, Bool.and_eq_true, List.contains_iff_mem, List.mem_filter]
+          exact ⟨⟨by simpa using hv, hu.1.1.1.1.1⟩, hu.1.1.1.1.2⟩
+        simp only [hvn, if_true, hid, findTbl_cons, hk, beq_self_eq_true]
+      · have hk' : (t.key == k) = false := by simpa using hk
+        have hkv : ((visibleTbl nameF t).key == k) = false := hk'
+        by_cases hvn : tableVisible nameF schemas t = true
+        · simp only [hvn, if_true, findTbl_cons, hk', hkv, Bool.false_eq_true, if_false]
+          exact ih h.2
+        · simp only [hvn, Bool.false_eq_true, if_false, findTbl_cons, hk']
+          exact ih h.2
+    · have hvn : tableVisible nameF schemas t = false := by
+        rw [hsch] at hv
+        have hv' : schemas.contains t.schema = false := by simpa using hv
+        simp only [tableVisible, visibleSchemas]
+        have : (List.filter (fun s => nameF ⟨s, .schema, none, none⟩) schemas).contains t.schema = false := by
+          rw [Bool.eq_false_iff]
+          intro hc
+          rw [List.contains_iff_mem] at hc
+          have := (List.mem_filter.mp hc).1
+          rw [Bool.eq_false_iff] at hv'
+          exact hv' (List.contains_iff_mem.mpr this)
+        rw [this]
+        rfl
+      have hv' : tableVisible (fun _ => true) schemas t = false := by simpa using hv
+      simp only [hv', hvn, Bool.false_eq_true, if_false] at h ⊢
+      exact ih h
+
+/-- **C20.conservative (name filter, per table).** For every table `k` none of whose reflected
+names (schema, table, columns, indexes, unique constraints, foreign keys) is rejected by
+`include_name`, the ops of the filtered diff inside that table are exactly those of the diff
+without a name filter - whatever `include_name` does to other tables. -/
+theorem conservative_name_table (P : Cmp) (objF : ObjDesc → Bool) (nameF : NameDesc → Bool)
+    (schemas : List (Option String)) (conn md : List Tbl) (k : Key)
+    (h : untouched nameF (visible (fun _ => true) schemas conn) k = true) :
+    (diffF P objF nameF schemas conn md).filter (fun op => op.key == k) =
+      (diffF P objF (fun _ => true) schemas conn md).filter (fun op => op.key == k) := by
+  simp only [diffF]
+  rw [diffCore_filter_key, diffCore_filter_key, findTbl_visible_agree nameF schemas conn k h]
+
+/-- **C20.conservative (both filters, per table).** Inside a table the name filter does not touch,
+the filtered diff is the diff without any filter restricted to the ops whose target and table
+`include_object` accepts (descriptors judged on the unfiltered reflected side). -/
+theorem conservative_table (P : Cmp) (objF : ObjDesc → Bool) (nameF : NameDesc → Bool)
+    (schemas : List (Option String)) (conn md : List Tbl) (k : Key)
+    (h : untouched nameF (visible (fun _ => true) schemas conn) k = true) :
+    (diffF P objF nameF schemas conn md).filter (fun op => op.key == k) =
+      ((diffF P (fun _ => true) (fun _ => true) schemas conn md).filter
+        (objAccepts objF (visible (fun _ => true) schemas conn) md)).filter (fun op => op.key == k) := by
+  rw [conservative_name_table P objF nameF schemas conn md k h,
+    conservative_object P objF (fun _ => true) schemas conn md]
 
 end C20
